@@ -11,6 +11,9 @@ open WR.C05
 
 def IsElem (l : Loc) : Prop := l.kind = .elem
 
+/-- the node is a child of some node (an element or the Document) -/
+def HasParent (l : Loc) : Prop := ∃ p, l.parent? = some p
+
 /-- HTML "document white space" = ASCII white space: space, tab, LF, FF, CR -/
 def isDocWs (c : Char) : Bool :=
   c == ' ' || c == '\t' || c == '\n' || c == '\x0c' || c == '\r'
@@ -76,9 +79,12 @@ mutual
     | .cls name, l => AttrHolds classKey name .incl false l
     | .id name, l => AttrHolds idKey name .eq false l
     | .attr key val op ic, l => AttrHolds key val op ic l
-    | .nth a b last ofType, l => IsElem l ∧ AnB a b (index last ofType l)
+    -- child-indexed pseudo-classes: Selectors 3 asks for a parent element, Selectors 4 for none;
+    -- as in browsers the element must be a child of a node (the Document counts), so a root
+    -- detached from its document (webrender's tree.NewHTML) is nobody's first child
+    | .nth a b last ofType, l => IsElem l ∧ HasParent l ∧ AnB a b (index last ofType l)
     | .only ofType, l =>
-      IsElem l ∧ ∀ s ∈ l.prevSibs ++ l.nextSibs, counts ofType l s = false
+      IsElem l ∧ HasParent l ∧ ∀ s ∈ l.prevSibs ++ l.nextSibs, counts ofType l s = false
     | .empty, l =>
       -- Selectors 4: no children except, optionally, document white space; comments do not count
       IsElem l ∧ ∀ c ∈ l.children, ¬ IsElem c ∧ (c.kind = .text → ∀ ch ∈ c.data, isDocWs ch = true)
